@@ -342,7 +342,17 @@ func (c *channel) reconnect(maxRetries float64) {
 	for {
 		var err error
 		vGate("ReconLockWait", c.node.ID(), 0, "who", maxRetries)
-		c.streamMut.Lock()
+		if maxRetries > 0 {
+			// The sender must never wait for the stream lock: the receiver holds it
+			// (shared) while it is blocked in RecvMsg, possibly on a stream that it
+			// has just re-created. If the lock is busy, somebody else is using or
+			// re-creating the stream; go on with the current state of the stream.
+			if !c.streamMut.TryLock() {
+				return
+			}
+		} else {
+			c.streamMut.Lock()
+		}
 		vEmit("ReconLocked", c.node.ID(), 0, "who", maxRetries)
 		// check if stream is already up
 		if !c.streamBroken.get() {
